@@ -521,6 +521,8 @@ func (m *message) fields(p string) (out []string) {
 		target := r.URL.String()
 		if r.Method == "CONNECT" && r.URL.Path == "" {
 			target = r.URL.Host
+		} else if r.URL.Path == "*" {
+			target = "*" // asterisk-form: no URL, whatever scheme/host the proxy filled in
 		}
 		start = fmt.Sprintf("%s %s HTTP/%d.%d", r.Method, target, r.ProtoMajor, r.ProtoMinor)
 		host, te, cl, hd = r.Host, r.TransferEncoding, r.ContentLength, r.Header
